@@ -84,7 +84,10 @@ func (r *validationResponseHandler) HandleValidationResponse(
 		// Nothing of an exchange is stored when the request or the 304 itself
 		// says no-store (RFC 9111 §5.2.1.5, §5.2.2.5): the response is served,
 		// the stored copy stays as it was.
-		if r.rs != nil && !ctx.CCReq.NoStore() && !ParseCCResponseDirectives(resp.Header).NoStore() {
+		// ... and when the validated response is no longer listed in the index
+		// (an unsafe request invalidated the URI while the origin was being
+		// asked), writing it back would undo the invalidation.
+		if r.rs != nil && ctx.RefIndex >= 0 && !ctx.CCReq.NoStore() && !ParseCCResponseDirectives(resp.Header).NoStore() {
 			// The freshened response replaces the stored one and its age restarts
 			// from this exchange; otherwise every later request validates again.
 			_ = r.rs.StoreResponse(
